@@ -1106,3 +1106,109 @@ Proof.
   destruct (trun true clean_cfg tinit timed_override_schedule) as [ts|] eqn:E; [|vm_compute in E; discriminate].
   exists ts. split; [reflexivity|]. vm_compute in E. injection E as E. subst ts. split; eexists; reflexivity.
 Qed.
+
+(* ------------------------------------------------------------------ environment faults *)
+
+Ltac fault_inv H :=
+  unfold step_fault in H;
+  match type of H with context[st_pc (ps ?s ?p)] => destruct (st_pc (ps s p)) eqn:Hpc end;
+  try match type of H with context[match ?o with OTime _ => _ | _ => _ end] => destruct o end;
+  cbv iota in H;
+  try discriminate H;
+  repeat match type of H with
+  | context[match ?x with _ => _ end] => destruct x eqn:?
+  end; try discriminate H; inversion H; subst; clear H.
+
+(* a failing flock and a failing os.remove leave the invariant of the lock users intact *)
+Lemma inv_step_fault chk cfg s p o s' r e :
+  Inv chk cfg s -> step_fault cfg s p o = Some (s', r, e) -> Inv chk cfg s'.
+Proof.
+  intros HI H. fault_inv H.
+  all: inst HI p; rw; red_state; selfinst.
+  all: constructor; unfold holds; intros; red_state; brk; red_state; rw; red_state.
+  all: easy_fin HI.
+  all: sat HI; dis; easy_fin HI.
+Qed.
+
+Lemma inv_stepf chk cfg s p o s' r e :
+  safe chk cfg -> Inv chk cfg s -> stepf chk cfg s p o = Some (s', r, e) -> o <> OUnlink -> Inv chk cfg s'.
+Proof.
+  intros HS HI H Hno. unfold stepf in H.
+  destruct o; try (eapply inv_stepc; eassumption);
+    (destruct (is_clean (cfg p)); [discriminate H | eapply inv_step_fault; eassumption]).
+Qed.
+
+Lemma inv_runf chk cfg : safe chk cfg -> forall l s0 s,
+  Inv chk cfg s0 -> no_unlink l -> runf chk cfg s0 l = Some s -> Inv chk cfg s.
+Proof.
+  intros HS. induction l as [|[p o] l IH]; intros s0 s H0 Hno Hr; cbn [runf] in Hr.
+  - injection Hr as <-. exact H0.
+  - destruct (stepf chk cfg s0 p o) as [[[s1 r1] e1]|] eqn:E; [|discriminate].
+    eapply IH; [| |exact Hr].
+    + eapply inv_stepf; [exact HS | exact H0 | exact E |]. intros ->. apply (Hno p). left. reflexivity.
+    + intros q Hin. apply (Hno q). right. exact Hin.
+Qed.
+
+(* lock users, clean-up passes that do not reach their unlink, and any number of faults: one process per lock file *)
+Lemma mutex_with_faults_lemma : forall chk cfg l s p q k,
+  safe chk cfg -> runf chk cfg init l = Some s -> no_unlink l ->
+  inside_at s p k -> inside_at s q k -> p = q.
+Proof.
+  intros chk cfg l s p q k HS Hr Hno. apply (mutex_inv chk cfg).
+  eapply inv_runf; [exact HS | apply inv_init | exact Hno | exact Hr].
+Qed.
+
+Lemma bounded_with_faults_lemma : forall cfg n l s pids,
+  (forall p, nslots (cfg p) <= n) -> runf true cfg init l = Some s -> no_unlink l ->
+  NoDup pids -> (forall p, In p pids -> inside s p) -> length pids <= n.
+Proof.
+  intros cfg n l s pids Hn Hr Hno. eapply bounded_inv; [|exact Hn].
+  eapply inv_runf; [left; reflexivity | apply inv_init | exact Hno | exact Hr].
+Qed.
+
+(* a failing flock never lets the process in: the attempt ends like a refused one and no flock changes hands *)
+Lemma flock_fault_fails_attempt_lemma : forall chk cfg s p s' r e,
+  stepf chk cfg s p OFlockErr = Some (s', r, e) ->
+  exists a i, st_pc (ps s p) = Opened a i /\ st_pc (ps s' p) = Closing a i false /\ owner s' = owner s /\
+              r = RFlock false /\ e = ENone.
+Proof.
+  intros chk cfg s p s' r e H. unfold stepf in H. destruct (is_clean (cfg p)); [discriminate H|].
+  fault_inv H. do 2 eexists. split; [reflexivity|]. red_state. rewrite Nat.eqb_refl. repeat split; reflexivity.
+Qed.
+
+(* unlock() whose os.remove fails releases by closing: after the two calls the process is outside and owns no flock,
+   and the lock file (still at its path) can be locked by the next contender *)
+Lemma remove_fault_releases_lemma : forall cfg l s p s1 r1 e1 s2 r2 e2 i,
+  runf true cfg init l = Some s -> no_unlink l ->
+  stepf true cfg s p ORemoveErr = Some (s1, r1, e1) -> stepf true cfg s1 p OClose = Some (s2, r2, e2) ->
+  st_pc (ps s2 p) = Idle /\ owner s2 i <> Some p /\ path s2 = path s.
+Proof.
+  intros cfg l s p s1 r1 e1 s2 r2 e2 i Hr Hno H1 H2.
+  assert (HI : Inv true cfg s) by (eapply inv_runf; [left; reflexivity | apply inv_init | exact Hno | exact Hr]).
+  assert (HI1 : Inv true cfg s1) by (eapply inv_stepf; [left; reflexivity | exact HI | exact H1 | discriminate]).
+  assert (HI2 : Inv true cfg s2) by (eapply inv_stepf; [left; reflexivity | exact HI1 | exact H2 | discriminate]).
+  unfold stepf in H1. destruct (is_clean (cfg p)) eqn:Hc; [discriminate H1|].
+  fault_inv H1.
+  assert (Hz : st_zomb (ps s p) = None) by (apply (iD _ _ _ HI); rewrite Hpc; reflexivity).
+  unfold stepf, stepc in H2. rewrite Hc in H2. unfold step in H2. red_state. rewrite Nat.eqb_refl in H2.
+  cbn [st_pc] in H2. injection H2 as <- _ _. red_state. rewrite Nat.eqb_refl. cbn [st_pc st_zomb].
+  split; [reflexivity|]. split; [|reflexivity].
+  intros E. destruct (fA' HI2 _ _ E) as [X|X]; red_state; rewrite Nat.eqb_refl in X; cbn in X; [discriminate X|].
+  rewrite Hz in X. discriminate X.
+Qed.
+
+(* non-vacuity: the holder's remove fails, it releases by closing, the next contender locks the file that stayed *)
+Definition fault_schedule : list label :=
+  [ (0, OTime 0); (0, OOpen); (0, OFlock); (0, OStat);
+    (1, OTime 0); (1, OOpen); (1, OFlockErr); (1, OClose);
+    (0, ORemoveErr); (0, OClose);
+    (1, OTime 1); (1, OSleep); (1, OOpen); (1, OFlock); (1, OStat) ].
+Example faults_nonvacuous :
+  exists s, runf true f5_cfg init fault_schedule = Some s /\ no_unlink fault_schedule /\
+            inside_at s 1 0 /\ st_pc (ps s 0) = Idle /\ path s 0 = Some 0.
+Proof.
+  destruct (runf true f5_cfg init fault_schedule) as [s|] eqn:E; [|vm_compute in E; discriminate].
+  exists s. split; [reflexivity|]. vm_compute in E. injection E as E. subst s.
+  split; [|split; [exists 0; reflexivity | split; reflexivity]].
+  intros p Hin. cbn in Hin. repeat (destruct Hin as [Hin|Hin]; [discriminate Hin|]). exact Hin.
+Qed.
